@@ -20,7 +20,7 @@ import (
 // world    = initialCluster (pod p; n1: 2 cores / 200 memory; n2: 4 cores in 2 NUMA nodes / 400 memory)
 // workload = every history of 0..3 creates from {memory-only on n1, bound 1.0 on n1, bound 0.5 on n2,
 //            bound 1.0 on n2 (NUMA-bound)} executed through the real API; the reached states are
-//            de-duplicated by their canonical form. The recorded workloads fit by construction
+//            de-duplicated modulo core / NUMA-node symmetry (c15SymKey). The recorded workloads fit by construction
 //            (the real allocator placed them on a consistent node) and this is re-checked.
 // drift    = one edit of the *usage* half of the plugin's node record, written straight into the
 //            KV (drift is by definition not validated): see c15Drifts.
@@ -431,7 +431,7 @@ func checkC15(t *testing.T, c *vcore.Ctx) {
 		c.HarnessError("initial cluster: %v", err)
 		return
 	}
-	c.SetRule("every (workload set, node, drift): workload sets = all histories of 0..3 real create calls from {memory-only on n1, bound 1.0 on n1, bound 0.5 on n2, bound 1.0 on n2 (NUMA)} on the cluster n1 (2 cores/200 memory), n2 (4 cores in 2 NUMA nodes/400 memory), de-duplicated by canonical state; " +
+	c.SetRule("every (workload set, node, drift): workload sets = all histories of 0..3 real create calls from {memory-only on n1, bound 1.0 on n1, bound 0.5 on n2, bound 1.0 on n2 (NUMA)} on the cluster n1 (2 cores/200 memory), n2 (4 cores in 2 NUMA nodes/400 memory), de-duplicated modulo the symmetries of the cluster (cores of one NUMA group and the two NUMA nodes of n2 are interchangeable; the drift alphabet is closed under them); the allocator's choices follow Go map order, so every (state, create) is repeated until 12 (thorough: 20) consecutive repetitions yield no new successor class and the union is kept; " +
 		"drift = one direct edit of the usage half of the plugin's record of the node: per core +30/+100/-30/-100, core key missing, core negative; memory +30/-30/negative; per NUMA node memory +30/-30/negative, NUMA usage map missing; CPU float +0.5/-0.5/negative; all usage zeroed; every field increased; no drift; " +
 		"then real NodeResource(fix=true) and NodeResource(fix=false) on a fresh core instance in a virtual-time bubble. non-trivial = distinct (state, node, drift) whose drifted record really differs from the sum of the recorded workloads")
 	c.Assume("etcd is the in-memory model memetcd; engines are the stateful fakev engines; 'inspect failed' lines of the check are about containers and are ignored")
